@@ -74,7 +74,11 @@ def _wrap_simulator(mod, attr, label):
         if p is None:
             return real(*a, **kw)
         k = p.kernel
-        with K.atomic_section('compute', label):
+        # a simulator run is one atomic step only for a *process*: it touches nothing but files private to its iteration.
+        # Threads of one process share cwd and sys.argv, which every run rewrites, so for pool threads the run is
+        # pre-emptible at each of its seams
+        section = K.atomic_section('compute', label) if p.image is p else _NoSection(k, label)
+        with section:
             try:
                 r = real(*a, **kw)
             except BaseException as e:  # noqa: BLE001
@@ -85,6 +89,17 @@ def _wrap_simulator(mod, attr, label):
     main._dsim = True
     main.__wrapped__ = real
     setattr(mod, attr, main)
+
+
+class _NoSection:
+    def __init__(self, k, label):
+        self.k, self.label = k, label
+
+    def __enter__(self):
+        self.k.seam('compute', self.label + ' (thread: pre-emptible)')
+
+    def __exit__(self, *a):
+        return False
 
 
 class _Ax:
@@ -206,6 +221,9 @@ def gen_config(cs, tier='quick', force=None):
     c['iterations'] = force.get('iterations') or it[cs.choose(len(it), 'iterations')]
     c['W'] = force.get('W') or W_TABLE[cs.choose(len(W_TABLE), 'W')]
     c['np_seed'] = cs.choose(1 << 30, 'np_seed')
+    # a Monte-Carlo run is sometimes preceded, in the same driver process, by an earlier small run (a history of runs):
+    # whatever that leaves behind in the parent is inherited by the workers forked for the run under test
+    c['pre_run'] = [None, None, None, 1, 2, 3][cs.choose(6, 'pre_run')]
     # delay regime
     ext = c['mode'] == 'extended'
     scales = [1e-5, 1e-6, 1e-4] if not ext else [1e-2, 1e-3, 1e-1]
@@ -283,6 +301,7 @@ def run_one(payload):
         os.makedirs(os.path.join(sandbox, 'tmp'))
         work = os.path.join(sandbox, 'work')
         os.makedirs(work)
+        os.makedirs(os.path.join(work, 'pre'))
         tempfile.tempdir = os.path.join(sandbox, 'tmp')
         inp = os.path.join(work, 'base_input.txt')
         stg = os.path.join(work, 'mc_settings.txt')
@@ -299,6 +318,7 @@ def run_one(payload):
                       repo_src=REPO_SRC, step_cap=payload.get('step_cap', 300000), capture_copies=True)
         k = K.Kernel(cs, simcfg, sandbox, run_seed=seed)
         k.rng_objects = _find_rng_objects()
+        k.rng_finder = _find_rng_objects
         if 'stale_lock' in c:
             sl = c['stale_lock']
             pid = 777 if sl['pid'] == 'live' else 778
@@ -317,6 +337,19 @@ def run_one(payload):
             from geophires_monte_carlo import MonteCarloRequest
             from geophires_monte_carlo import SimulationProgram
             prog = SimulationProgram.HIP_RA_X if c['program'] == 'hip' else SimulationProgram.GEOPHIRES
+            if c.get('pre_run'):
+                stg0 = os.path.join(work, 'mc_settings_pre.txt')
+                with K._real['open'](stg0, 'w') as f0:
+                    f0.write(settings_text(dict(c, iterations=c['pre_run'])))
+                try:
+                    GeophiresMonteCarloClient().get_monte_carlo_result(
+                        MonteCarloRequest(prog, Path(inp), Path(stg0), Path(os.path.join(work, 'pre', 'MC_Pre.txt'))))
+                except BaseException as e:  # noqa: BLE001
+                    if isinstance(e, (K.SimFatal, K.ProcKilled)):
+                        raise
+                    outcome['pre'] = f'raised {type(e).__name__}'
+                # only the run under test is analysed
+                k.marks = {'notes': len(k.notes), 'pools': len(k.pools)}
             try:
                 GeophiresMonteCarloClient().get_monte_carlo_result(MonteCarloRequest(prog, Path(inp), Path(stg), Path(out)))
                 outcome['main'] = 'ok'
@@ -463,11 +496,13 @@ def extract_output(report, label):
 def analyse(rec, c, k, out_path, inp_path, payload):
     viol = []   # dicts: property, cls, cause, detail
     rec['violations'] = viol
-    notes = k.notes
+    marks = getattr(k, 'marks', None) or {'notes': 0, 'pools': 0}
+    notes = k.notes[marks['notes']:]
+    pools = k.pools[marks['pools']:]
     strict = c['mode'] == 'strict'
     fatal = rec['fatal']
-    pool = k.pools[0] if k.pools else None
-    tasks = [t for pl_ in k.pools for t in pl_.tasks]     # a driver may use several pools (e.g. a retry pass)
+    pool = pools[0] if pools else None
+    tasks = [t for pl_ in pools for t in pl_.tasks]     # a driver may use several pools (e.g. a retry pass)
     tasks_by_id = {t.idx: t for t in tasks}
 
     def V(prop, cls, cause, detail):
@@ -524,9 +559,9 @@ def analyse(rec, c, k, out_path, inp_path, payload):
             it['entries'] += n['data']
     n_sub = len(tasks)
     rec['tasks'] = n_sub
-    broken = any(pl_.broken for pl_ in k.pools)
+    broken = any(pl_.broken for pl_ in pools)
     rec['pool_broken'] = broken
-    rec['pools'] = len(k.pools)
+    rec['pools'] = len(pools)
     n_obs = max(n_sub, len(iters))      # a pool task may carry several iterations (chunking), so count iterations seen as well
     if pool is not None and n_obs < c['iterations'] and (strict or not broken):
         # (more than ITERATIONS is legal - e.g. a retry pass; fewer means requested iterations were never run)
